@@ -32,5 +32,45 @@ source_for(const std::string &profile, const std::string &prop, int tier)
                         }
                 };
         }
+        if (profile == "reinit") {
+                // C15: the history after the last re-initialisation must equal the history of the same
+                // ops on a freshly allocated manager initialised for the same variant
+                s.post = [](const Plan &p, const RunResult &r, std::vector<Violation> &out) {
+                        int last = -1;
+                        for (size_t i = 0; i < p.ops.size(); i++)
+                                if (p.ops[i].kind == OP_REINIT)
+                                        last = (int) i;
+                        if (last < 0 || !r.viols.empty())
+                                return;
+                        Plan q;
+                        q.seed = p.seed;
+                        q.profile = p.profile;
+                        q.prop = p.prop;
+                        q.oracles = p.oracles;
+                        q.warmup = 0;
+                        int cfg = p.ops[(size_t) last].a;
+                        if (cfg < 0 || cfg >= NCFG)
+                                return;
+                        q.task_cfg = { cfg };
+                        Op mark;
+                        mark.kind = OP_MARK;
+                        q.ops.push_back(mark);
+                        for (size_t i = (size_t) last + 1; i < p.ops.size(); i++)
+                                q.ops.push_back(p.ops[i]);
+                        RunResult fresh = run_plan(q);
+                        if (fresh.suffix_hash != r.suffix_hash) {
+                                Violation v;
+                                v.prop = "C15";
+                                v.oracle = "reinit.history";
+                                char b[256];
+                                snprintf(b, sizeof b,
+                                         "history of the %zu ops after re-initialising as %s differs from the same ops on a fresh %s manager",
+                                         p.ops.size() - (size_t) last - 1, cfg_name(cfg), cfg_name(cfg));
+                                v.detail = b;
+                                v.op_index = last;
+                                out.push_back(v);
+                        }
+                };
+        }
         return s;
 }
